@@ -76,6 +76,10 @@ class Maker:
     def nmade(self):
         return len(self.made)
 
+    def fail_with(self, x):
+        # a hosted method that raises while it holds a proxy it was given as an argument
+        raise ValueError('fail_with')
+
 
 class Factory2:
     """registered under the same typeid 'Factory' on another manager class, with a different set of methods"""
@@ -163,6 +167,23 @@ class Executor:
         if keep:
             self.slots[newtag] = x
         del x
+
+    def op_fail_with(self, ftag, tag):
+        try:
+            self.slots[ftag].fail_with(self.slots[tag])
+        except ValueError as e:
+            if 'fail_with' in str(e):
+                return 'raised'
+            raise
+        raise RuntimeError('the hosted method did not raise')
+
+    def op_bad_pickle(self, tag, ctag):
+        # the proxy travels in a message that cannot be pickled as a whole: the call fails in this process
+        try:
+            self.slots[ctag].append([self.slots[tag], lambda: 0])
+        except Exception as e:  # noqa
+            return type(e).__name__
+        raise RuntimeError('the unpicklable message was accepted')
 
     def op_use(self, tag):
         p = self.slots[tag]
